@@ -1043,4 +1043,4 @@ func SpecRdbBuffered(r *memoryRdb) int64 { panic("abstract spec function") }
 //@   properties C06
 //@   replay syncer_rekeyPsync
 //@   modifies heap, curDb, cpDb, phase, replayFailed, rootReads, rootOff, rootRun, lastHashName, lastHashRun
-//@   assert at call UpdateCheckpoint: start_up_keeps_the_run_id_a_position_is_filed_under: len(arg2) >= 1 && (lastHashName == "" || arg2[0] == lastHashRun)
+//@   assert at call UpdateCheckpoint: start_up_keeps_the_run_id_a_position_is_filed_under: lastHashName == "" || lastHashRun == "" || (len(arg2) >= 1 && arg2[0] == lastHashRun)
